@@ -2,7 +2,7 @@
    Parsing and printing only; every result is computed by extracted code.
    One request per line (mode argument `aggfn`), one answer line per request.
      (<fn> <tree>)
-        fn   = count | regr_count | sum_i64 | sum_i128 | sum_f | avg_i | avg_f | avg_d:<k> | avg_dec:<scale>
+        fn   = count | regr_count | sum_i64 | sum_i128 | sum_f | avg_i | avg_f | avg_dec:<scale>
              | var_pop | var_samp | stddev_pop | stddev_samp | covar_pop | covar_samp | corr | regr_r2
              | regr_slope | regr_avgx | regr_avgy | min | max | bit_and | bit_or | bool_and | bool_or
              | first_i | first_s | string_agg:<sep hex>
@@ -105,8 +105,6 @@ let answer (fn : string) (t : sexp) : string =
   | "first_s" -> go first_agg spec_first p_bytes s_optx t
   | _ when starts "avg_dec:" fn ->
     let sc = zs (after "avg_dec:" fn) in go (avg_dec sc) (spec_avg_dec sc) p_int s_fres t
-  | _ when starts "avg_d:" fn ->
-    let k = zs (after "avg_d:" fn) in go (avg_d k) (spec_avg_d k) p_int s_fres t
   | _ when starts "string_agg:" fn ->
     let sep = bytes_of_hex (after "string_agg:" fn) in
     go (string_agg sep) (spec_string_agg sep) p_bytes s_optx t
